@@ -16,6 +16,9 @@
 #include <cstdint>
 #include <string>
 
+#ifdef MUSTACHE_VERIF
+namespace mustache { namespace verif { struct Access; } }
+#endif
 namespace mustache {
 
     class World;
@@ -152,6 +155,9 @@ namespace mustache {
 
         friend ElementView;
         friend EntityManager;
+#ifdef MUSTACHE_VERIF
+        friend struct mustache::verif::Access; // verification hook: read-only access for harnesses
+#endif
 
         [[nodiscard]] ComponentStorageIndex pushBack(Entity entity);
 
